@@ -92,7 +92,7 @@ func genStoreCase(c *Cfg, i int, maxLen int) *StoreCase {
 	n := 1 + rg.IntN(maxLen)
 	nz := len(c14Zoo())
 	cs := &StoreCase{Family: "sequence"}
-	ops := []string{"set", "set", "set", "delete", "delete-missing", "merge", "merge-nil", "merge-own-getall", "merge-snapshot", "clear", "set-after-clear", "getall", "keys", "snap-set", "snap-delete", "keys-overwrite", "set-nil", "read-typed", "read-typed"}
+	ops := []string{"merge-bulk", "set", "set", "set", "delete", "delete-missing", "merge", "merge-nil", "merge-own-getall", "merge-snapshot", "clear", "set-after-clear", "getall", "keys", "snap-set", "snap-delete", "keys-overwrite", "set-nil", "read-typed", "read-typed"}
 	for j := 0; j < n; j++ {
 		st := StoreStep{Op: ops[rg.IntN(len(ops))], Key: rg.IntN(len(storeKeys)), Val: rg.IntN(nz)}
 		switch st.Op {
@@ -260,6 +260,25 @@ func runStoreCaseProg(cs *StoreCase, z []zoo.Named, probe storeProbe, prog *atom
 			if len(m) != before {
 				return fail("merge-mutates-argument", "step %d: Merge changed the map passed to it", si)
 			}
+		case "merge-bulk": // 70..200 entries at once, nil values and keys that already exist among them
+			m := map[string]any{}
+			nb := 70 + (st.Val*7)%131
+			for x := 0; x < nb; x++ {
+				kk := keyName(len(storeKeys) + (st.Key*31+x)%90)
+				if x < len(storeKeys) {
+					kk = storeKeys[x]
+				}
+				vv := z[(st.Val+x)%len(z)].V
+				if x%5 == 0 {
+					vv = nil // a nil value overwrites like any other (only a nil MAP is ignored by Merge)
+				}
+				m[kk] = vv
+			}
+			s.Merge(m)
+			for kk, vv := range m {
+				ref[kk] = vv
+			}
+			stats["bulk_merges"]++
 		case "merge-nil":
 			s.Merge(nil)
 		case "merge-own-getall":
